@@ -446,7 +446,7 @@ def run(ctx):
     quick = ctx.tier == 'quick'
     cases = []
     for p in sorted(glob.glob(os.path.join(paths.CORPUS, 'C02', '*.json'))):
-        cases.append(json.load(open(p))['case'])
+        if not os.path.basename(p).startswith('wsched_'): cases.append(json.load(open(p))['case'])
     # (a) generated single-submitter cases (well-formed stream) + a separate stream with RFC-unencodable messages
     for _ in range(700 if quick else 6000): cases.append(gen_case(rng))
     for _ in range(60 if quick else 400): cases.append(gen_case(rng, allow_bad=True))
@@ -505,6 +505,13 @@ def run(ctx):
                 ctx.disagree({'kind': 'decoder', 'base': b, 'wire': w.hex()}, None if co is None else [x.hex() for x in co],
                              None if py is None else [x.hex() for x in py], 'WireSpec.decode vs Python strict receiver', theorem='C02_decode11/C02_decode10')
         ctx.extra['decoder_crosscheck_streams'] = len(streams)
+    # (g) Session.send callers racing Session.run under the deterministic scheduler: every effect trace validated against
+    #     Model/WriterSched.v, strict receiver on the accepted octets vs the messages in put order
+    if not too_many(ctx):
+        from harness import wr_check
+        sched_corpus = [json.load(open(p))['case'] for p in sorted(glob.glob(os.path.join(paths.CORPUS, 'C02', 'wsched_*.json')))]
+        n_sched = wr_check.check(ctx, n_random=500 if quick else 8000, dfs_bound=2 if quick else 3, dfs_cap=220 if quick else 4000, corpus=sched_corpus)
+        ctx.extra['scheduled_runs'] = n_sched
     # (f) the same property sentence behind the real transports
     if not too_many(ctx):
         peers_level(ctx)
@@ -598,7 +605,11 @@ def peers_level(ctx):
 
 def search(ctx, seeds):
     rng = ctx.rng
-    tries = [c for c in seeds if c.get('kind') not in ('decoder', 'peer')]
+    if any(c.get('kind') == 'wsched' for c in seeds):
+        from harness import wr_check
+        f = wr_check.search(ctx, seeds)
+        if f: return f
+    tries = [c for c in seeds if c.get('kind') not in ('decoder', 'peer', 'wsched')]
     for _ in range(1500): tries.append(gen_case(rng))
     for base in (0, 1): tries.extend(failure_cases(base, ['ab', 'naïve'], 3))
     for _ in range(30): tries.append(gen_concurrent(rng))
@@ -623,6 +634,9 @@ def reproduce(finding):
 
 def replay(doc):
     case = doc['case']
+    if case.get('kind') == 'wsched':
+        from harness import wr_check
+        return wr_check.replay(doc)
     if case.get('kind') == 'decoder':
         print('decoder cross-check case', case); return False
     obs, probs, _ = run_any(_NoModel, case)
